@@ -1,5 +1,6 @@
     ensures
         r@.len() == k,
+        r@ == chars_of(text_of(kmer as nat, k as nat)),
         bytes_of(r@) == text_of(kmer as nat, k as nat),
         forall|j: int| 0 <= j < k ==> is_acgt(#[trigger] bytes_of(r@)[j]),
         fcode(bytes_of(r@)) == (kmer as nat) % pow4(k as nat),
